@@ -229,17 +229,29 @@ func prec(k ExprKind) int {
 	return 4
 }
 
+// markRefs makes the renderers wrap every *reference* to a namespace or
+// relation in \x01kind\x03name\x02 (used by C11's converse half to locate and
+// replace references).
+var markRefs bool
+
+func ref(kind, name string) string {
+	if markRefs {
+		return "\x01" + kind + "\x03" + name + "\x02"
+	}
+	return name
+}
+
 func (e *Expr) opl(full bool, parent ExprKind, top bool) string {
 	switch e.Kind {
 	case ExIncludes:
-		return fmt.Sprintf("this.related.%s.includes(ctx.subject)", e.Rel)
+		return fmt.Sprintf("this.related.%s.includes(ctx.subject)", ref("includes", e.Rel))
 	case ExPermits:
-		return fmt.Sprintf("this.permits.%s(ctx)", e.Rel)
+		return fmt.Sprintf("this.permits.%s(ctx)", ref("permits", e.Rel))
 	case ExTraverse:
 		if e.ViaPermits {
-			return fmt.Sprintf("this.related.%s.traverse((p) => p.permits.%s(ctx))", e.Rel, e.Computed)
+			return fmt.Sprintf("this.related.%s.traverse((p) => p.permits.%s(ctx))", ref("traverse-rel", e.Rel), ref("traverse-computed", e.Computed))
 		}
-		return fmt.Sprintf("this.related.%s.traverse((p) => p.related.%s.includes(ctx.subject))", e.Rel, e.Computed)
+		return fmt.Sprintf("this.related.%s.traverse((p) => p.related.%s.includes(ctx.subject))", ref("traverse-rel", e.Rel), ref("traverse-computed", e.Computed))
 	case ExNot:
 		c := e.Children[0]
 		s := c.opl(full, ExNot, false)
@@ -280,9 +292,9 @@ func typeOPL(ts []TypeRef) string {
 	var parts []string
 	for _, t := range ts {
 		if t.Rel == "" {
-			parts = append(parts, t.NS)
+			parts = append(parts, ref("type-namespace", t.NS))
 		} else {
-			parts = append(parts, fmt.Sprintf("SubjectSet<%s, %q>", t.NS, t.Rel))
+			parts = append(parts, fmt.Sprintf("SubjectSet<%s, \"%s\">", ref("subjectset-namespace", t.NS), ref("subjectset-relation", t.Rel)))
 		}
 	}
 	if len(parts) == 1 {
